@@ -349,6 +349,7 @@ class Facts:
                 self.fns[f["path"]] = f
         self._callers = None
         self.inlined_helpers = []
+        self.helper_bodies = {}
         self._inline_new_helpers()
 
     # ------------------------------------------------------------------ helper inlining
@@ -411,6 +412,7 @@ class Facts:
                 self.inlined_helpers.append(hp)
                 hb = self.bodies.pop(hp, None)
                 if hb is not None:
+                    self.helper_bodies[hp] = hb      # still needed for the helper's promoted constants
                     self.body_list = [x for x in self.body_list if x is not hb]
                     if hb.root and hb in self.by_root.get(hb.root, []):
                         self.by_root[hb.root].remove(hb)
